@@ -44,6 +44,15 @@ CLAIMED["C02"] = dict(
     text="Decides that the malicious-security checks cannot be skipped: every DZKP/MAC validator created in protocol code is validated on every success path (or moved into validated_seq_join / a per-record validating callee); every opening of secret data is ordered after the validation covering it or is a table-listed part of a check; shuffled rows are released only after verify_shuffle succeeded on the same table; each check's comparison gates success (hash comparisons, two-copy reveal equality, MAC T=u-wr zero test, padding-count equality, DZKP zero differences). Does not decide the cryptographic soundness of those checks nor the end-to-end 'accepted => correct' behaviour.",
     ref="§3 C02")
 
+CLAIMED["C04"] = dict(
+    technique="static analysis: guard polarity via dominators on the two-copy comparison in malicious_reveal, validate-before-reveal ordering with await settlement points, def-use wiring of the duplicate multiplication / MAC accumulation (expression-tree extraction from MIR), affine-form extraction of validator record ids",
+    text="Decides the statement's last sentence exactly (a value is opened only on the equal edge of a comparison of the two different received copies) plus the wiring of the MAC path: validate_record precedes both reveals in the PRF, mac_multiply multiplies (x,y) and (r*x, induced y) on distinct steps and accumulates the product on every Ok path, accumulate_macs uses one per-lane PRSS coefficient for both u and w, validate returns Ok only if check_zero(u - w*r), and the u/w/r record-id families are jointly injective for the constants used. Detection probability and algebraic soundness are not decided.",
+    ref="§3 C04")
+CLAIMED["C05"] = dict(
+    technique="static analysis: dominator ordering with await settlement and `?` edges (verify before release, same table), verdict-guard polarity of every hash comparison, field-order symmetry of writer/reader chains, constant relations on tag offsets",
+    text="Decides the detection wiring of the malicious shuffle: MAC tags are added before shuffling, verify_shuffle is awaited and `?`-propagated before the rows are released from the same table, each documented hash comparison is present, compares a local with a received hash and gates Ok; report fields are packed and unpacked in the same order and the tag is cut at the share's byte size. The permutation/multiset property and output-share consistency are numerical and not decided.",
+    ref="§3 C05")
+
 NOT_APPLICABLE = {
     "C01": "end-to-end numerical equality of the MPC histogram with a plaintext reference over all inputs/shardings: no clause of it is visible in code shape; static analysis in reach cannot bound it (DESIGN.md §4)",
     "C07": "functional correctness of arithmetic/Boolean circuits over all operand values is numerical; would need symbolic execution of the circuits, a different technique family (DESIGN.md §4)",
